@@ -55,7 +55,7 @@ NORMATIVE = {
             "loaded-version-hash-differs-from-commit", "versioned-view-wrong-content",
             "transient-not-empty-after-commit", "transient-not-empty-after-reopen", "commit-changes-content",
             "working-content-differs", "prune-rule-differs", "commit-panics", "save-conflict"},
-    "C13": {"crash-reopen-fails", "crash-mixture", "crash-content-version-mismatch", "crash-wrong-version",
+    "C13": {"crash-reexec-panics", "commit-panics", "crash-reopen-fails", "crash-mixture", "crash-content-version-mismatch", "crash-wrong-version",
             "crash-reexec-fails", "crash-reexec-hash-differs", "crash-reexec-wrong-content",
             "crash-reexec-not-durable", "flush-not-atomic", "save-after-flush",
             "hash-not-function-of-history", "crash-wrong-data-loaded"},
@@ -179,6 +179,8 @@ def proof_class(key, value, content):
         return {"proof_kind": "absence", "absence_cls": "unknown"}
     kb = key.encode()
     ks = sorted(k.encode() for k in content)
+    if key in content:
+        return {"proof_kind": "absence", "absence_cls": "key-is-present"}
     if not ks:
         return {"proof_kind": "absence", "absence_cls": "empty-store"}
     pred = [k for k in ks if k < kb]
@@ -310,7 +312,7 @@ def to_program(h, pid, backend, faults, obs_budget, rng, prune_after_flush=False
             raise common.ToolError("unknown spec step %r" % a)
     if pending_flush is not None:
         emit_commit()
-    cfg = {"stores": STORES, "transient": TSTORE, "kr": h["kr"], "ke": h["ke"], "backend": backend}
+    cfg = {"stores": STORES, "transient": TSTORE, "kr": h["kr"], "ke": h["ke"], "backend": backend, "spal": bool(h.get("spal"))}
     return {"id": pid, "cfg": cfg, "steps": steps}, plan
 
 
@@ -375,11 +377,15 @@ def judge_reopen(iss, ro, n, pre, post, fields, flushed):
     return ver
 
 
+def reexec_sig(err):
+    return "crash-reexec-panics" if "panic" in (err or "") else "crash-reexec-fails"
+
+
 def judge_reexec(iss, rx, n, post, ideal_hash, fields):
     if rx is None:
         return
     if not rx.get("ok"):
-        iss.add("crash-reexec-fails", "re-executing the interrupted block %d after the crash (writes done: %s) fails: %s"
+        iss.add(reexec_sig(rx.get("err")), "re-executing the interrupted block %d after the crash (writes done: %s) fails: %s"
                 % (n + 1, fields.get("done"), rx.get("err")), **fields)
         return
     if rx.get("ver") != n + 1:
@@ -407,6 +413,11 @@ def judge_faults(iss, faults, n, pre, post, ideal_hash, committed, base_fields, 
         stats["classes"][fields["cls"]] = stats["classes"].get(fields["cls"], 0) + 1
         if f.get("err"):
             iss.tool.append("fault experiment could not run: %s" % f["err"])
+            continue
+        if f.get("panic"):
+            # the uninterrupted commit succeeded on the live handle, the same commit on a fresh one panics
+            iss.add("commit-panics", "Commit of version %d on a freshly opened store panics (writes done: %s): %s"
+                    % (n + 1, done, f["panic"]), **fields)
             continue
         flushed = any(d.startswith("flush:") for d in done)
         ver = judge_reopen(iss, f.get("reopen") or {}, n, pre, post, fields, flushed)
@@ -543,7 +554,7 @@ def check_queries(iss, real_qs, spec_qs, fields, hashes, clean, stats, committed
 
 def compare_behaviour(iss, h, prog, plan, res, tokhash, stats):
     kr, ke = h["kr"], h["ke"]
-    base = {"kr": kr, "ke": ke, "id": prog["id"]}
+    base = {"kr": kr, "ke": ke, "spal": bool(h.get("spal")), "id": prog["id"]}
     obs = res.get("obs") or []
     if res.get("tool_error"):
         iss.tool.append("driver: %s" % res["tool_error"])
@@ -620,6 +631,15 @@ def compare_behaviour(iss, h, prog, plan, res, tokhash, stats):
             st = pl["start"]
             n = st["n"]
             pre, post = nstores(st["pre"]), nstores(st["post"])
+            if o.get("panic"):
+                if crashed_in is not None:
+                    cn, cpre, cpost, cf = crashed_in
+                    iss.add("crash-reexec-panics", "re-executing block %d after a crash (writes done: %s) panics inside Commit: %s"
+                            % (cn + 1, cf.get("done"), o["panic"]), **dict(cf, step=i))
+                else:
+                    iss.add("commit-panics", "Commit of version %d panics: %s" % (n + 1, o["panic"]), **f)
+                stats["behaviours"] += 1
+                return
             if not o.get("matched"):
                 iss.add("model:crash-point-unreachable", "the real Commit never produced the write prefix %s of the specification; seen: %s"
                         % (pl["done"], o.get("seen")), **f)
@@ -641,9 +661,11 @@ def compare_behaviour(iss, h, prog, plan, res, tokhash, stats):
             stats["commits"] += 1
             if not o.get("ok"):
                 if crashed_in is not None:
-                    iss.add("crash-reexec-fails", "re-executing block %d after the crash fails: %s" % (n + 1, o.get("err")), **dict(crashed_in[3], step=i))
+                    iss.add(reexec_sig(o.get("err")), "re-executing block %d after a crash (writes done: %s) fails: %s"
+                            % (n + 1, crashed_in[3].get("done"), o.get("err")), **dict(crashed_in[3], step=i))
                 else:
-                    iss.add("commit-panics", "Commit panics: %s" % o.get("err"), **f)
+                    iss.add("commit-panics", "Commit of version %d panics: %s" % (n + 1, o.get("err")), **f)
+                stats["behaviours"] += 1
                 return
             committed[n + 1] = post
             if o.get("ver") != o.get("prever", 0) + 1:
@@ -826,7 +848,7 @@ def slim(h):
         if isinstance(o, dict) and len(json.dumps(o)) > 20000:
             e["obs"] = {"loads": o.get("loads") or [], "queries": [], "clean": o.get("clean")}
         steps.append(e)
-    return {"kr": h["kr"], "ke": h["ke"], "steps": steps}
+    return {"kr": h["kr"], "ke": h["ke"], "spal": bool(h.get("spal")), "steps": steps}
 
 
 def new_stats():
@@ -898,6 +920,8 @@ def record_and_validate(out, d, prop, tier, seed, rng, devs):
                 "--backend", r.get("backend", "memdb")]
         if "PruneBeforeFlush" not in devs:
             args.append("--prune-after-flush")
+        if rng.random() < 0.5:
+            args.append("--set-pruning-after-load")
         p = common.run_driver("storedrv", args, timeout=900)
         if p.returncode != 0:
             raise common.ToolError("storedrv record failed: %s" % p.stderr[-2000:])
@@ -929,6 +953,8 @@ def validate_lines(out, d, lines, metas, devs):
                     "Commit issued a durable write outside the protocol: %s" % cls, **f)
         elif e["a"] == "commitpanic":
             iss.add("commit-panics", "Commit panics: %s" % e.get("err"), **f)
+        elif e["a"] == "query" and e.get("panic"):
+            iss.add("query-panics", "Query %s panics: %s" % ([e["via"], e["s"], e["k"], e["h"], e["p"]], e["panic"]), **f)
         elif e["a"] == "tool_error":
             iss.tool.append("record: %s" % e.get("err"))
     # prune writes after the flush = the crash-safe order; the model follows what the log shows
@@ -979,8 +1005,10 @@ def validate_lines(out, d, lines, metas, devs):
 
 
 def report(out, prop, iss, where):
-    for t in iss.tool[:1]:
-        raise common.ToolError("%s: %s" % (where, t))
+    # problems of the machinery make the run undecided (exit 2) unless the real code has already
+    # shown a violation of the property elsewhere in the run (see the end of run())
+    for t in iss.tool[:5]:
+        out.notes.setdefault("tool_problems", []).append("%s: %s" % (where, t))
     non = out.notes.setdefault("nonconformance_not_normative_for_" + prop, [])
     for x in iss.items:
         sig = x["sig"]
@@ -1039,6 +1067,8 @@ def run(prop, tier, seed):
         out.notes["t_trace_s"] = round(time.time() - t0, 1)
         out.cov["traces_validated_against_impl"] += tstats["histories"]
         report(out, prop, tiss, "trace validation of recorded histories")
+        if out.notes.get("tool_problems") and not out.violations:
+            raise common.ToolError("; ".join(out.notes["tool_problems"][:3]))
         if tiss.rejected and not out.violations:
             raise common.ToolError("the specification could not follow a recorded history of the real code (%s); "
                                    "that part of the evidence is missing" % tiss.rejected)
